@@ -18,7 +18,10 @@ const IFACE_NAMES: [&str; 6] = ["a.b", "org.example.x-y", "A9.b--c.d0", "x.9", "
 const TYPE_NAMES: [&str; 4] = ["T", "Ab9", "ZZ", "Q0x"];
 const FIELD_NAMES: [&str; 4] = ["a", "b_c", "X9", "d_1_e"];
 const VARIANT_NAMES: [&str; 3] = ["one", "t_2", "Up"];
-const COMMENTS: [&str; 4] = ["c", "note: (a, b) -> x # y", "", "type T (x: int)"];
+/// Comment texts: plain, empty, and texts that look like IDL (brackets before and after a colon, a
+/// colon alone, a closing bracket alone, keywords).  Which text lands on which position rotates with
+/// a per-execution offset, so that every position gets every text.
+const COMMENTS: [&str; 7] = ["c", "note: (a, b) -> x # y", "", "type T (x: int)", "the name (may be absent)", "red: the warm one", ") -> ("];
 
 #[derive(Clone, Debug)]
 struct Gen {
@@ -30,12 +33,14 @@ struct Gen {
     variant_comments: bool,
     layouts: Vec<Layout>,
     iface_names: usize,
+    /// which comment text lands on which position rotates with a per-execution offset
+    rotate: bool,
 }
 
 impl Gen {
     fn to_json(&self) -> Value {
         json!({"max_members": self.max_members, "max_fields": self.max_fields, "type_budget": self.type_budget, "comments": self.comments, "variant_comments": self.variant_comments,
-            "layouts": self.layouts.iter().map(|l| format!("{l:?}")).collect::<Vec<_>>(), "iface_names": self.iface_names})
+            "layouts": self.layouts.iter().map(|l| format!("{l:?}")).collect::<Vec<_>>(), "iface_names": self.iface_names, "rotate": self.rotate})
     }
     fn from_json(v: &Value) -> Option<Gen> {
         Some(Gen {
@@ -46,6 +51,7 @@ impl Gen {
             variant_comments: v["variant_comments"].as_bool()?,
             layouts: v["layouts"].as_array()?.iter().map(|l| *LAYOUTS.iter().find(|x| format!("{x:?}") == l.as_str().unwrap()).unwrap()).collect(),
             iface_names: v["iface_names"].as_u64()? as usize,
+            rotate: v["rotate"].as_bool().unwrap_or(false),
         })
     }
 
@@ -88,9 +94,9 @@ impl Gen {
         if n == 0 {
             vec![]
         } else if *k % 5 == 0 {
-            vec![COMMENTS[*k % 4].to_string(), COMMENTS[(*k + 1) % 4].to_string()]
+            vec![COMMENTS[*k % COMMENTS.len()].to_string(), COMMENTS[(*k + 1) % COMMENTS.len()].to_string()]
         } else {
-            vec![COMMENTS[*k % 4].to_string()]
+            vec![COMMENTS[*k % COMMENTS.len()].to_string()]
         }
     }
     fn fields(&self, cx: &Ctx, budget: &mut usize, k: &mut usize, with: bool) -> Vec<RField> {
@@ -100,7 +106,7 @@ impl Gen {
     fn gen(&self, cx: &Ctx) -> (RIface, Layout) {
         let layout = self.layouts[cx.choose(self.layouts.len(), "layout")];
         let with = layout == Layout::Lines;
-        let mut k = 0usize;
+        let mut k = if with && self.comments != 0 && self.rotate { cx.choose(COMMENTS.len(), "comment-texts:rotation") } else { 0 };
         let name = IFACE_NAMES[cx.choose(self.iface_names, "interface-name")].to_string();
         let comments = self.comment(cx, &mut k, with);
         let nm = cx.choose(self.max_members + 1, "members");
@@ -329,7 +335,7 @@ impl Harness for TokenStrings {
 
 pub fn run_c13(tier: Tier) -> i32 {
     let mut rep = Report::new("C13", tier.name());
-    rep.rule = "positives: DFS over reference trees (interface name x members from {type-struct, type-enum, method, error} x field lists x type trees within a global budget of wrapper/inline nodes x comment on every subset of commentable positions) x layouts {no optional whitespace, single spaces, newline+tab between tokens, CRLF, one field per line with comment lines}; the text comes from the harness's own renderer. Negatives: for every tree of a smaller bound, every single mutation (delete / duplicate each token, swap each adjacent pair, insert each of 10 characters at each byte, truncate at each byte) and every string of <=4/5 tokens over a 13-token alphabet after `interface a.b`. Deep nesting: four kinds of types nested 64 / 512 / 2048 levels (must parse and round-trip) and 16384 / 65536 levels (must not kill the process; rejecting them is accepted), each in a child process with an 8 MiB stack. Every text is classified by a reference recogniser written from the grammar: must-accept (tree compared incl. comments), must-reject, or don't-care (derivable only with comments/layout the statement does not name: either answer passes, but an accepted tree must still equal the denoted one)".into();
+    rep.rule = "positives: DFS over reference trees (interface name x members from {type-struct, type-enum, method, error} x field lists x type trees within a global budget of wrapper/inline nodes x comment on every subset of commentable positions; in the comment-texts phases every one of seven comment texts, incl. texts that look like IDL, on every position) x layouts {no optional whitespace, single spaces, newline+tab between tokens, CRLF, one field per line with comment lines}; the text comes from the harness's own renderer. Negatives: for every tree of a smaller bound, every single mutation (delete / duplicate each token, swap each adjacent pair, insert each of 10 characters at each byte, truncate at each byte) and every string of <=4/5 tokens over a 13-token alphabet after `interface a.b`. Deep nesting: four kinds of types nested 64 / 512 / 2048 levels (must parse and round-trip) and 16384 / 65536 levels (must not kill the process; rejecting them is accepted), each in a child process with an 8 MiB stack. Every text is classified by a reference recogniser written from the grammar: must-accept (tree compared incl. comments), must-reject, or don't-care (derivable only with comments/layout the statement does not name: either answer passes, but an accepted tree must still equal the denoted one)".into();
     rep.assumptions = vec![
         "the Varlink grammar as published on varlink.org; members may share a line only in the don't-care zone; `()` in type position is an empty struct".into(),
         "comment text is compared modulo surrounding whitespace".into(),
@@ -340,7 +346,7 @@ pub fn run_c13(tier: Tier) -> i32 {
     }
     let cfg = Config { max_wall: std::time::Duration::from_secs(tier.pick(60, 1800)), ..Default::default() };
     let all = LAYOUTS.to_vec();
-    let g = |max_members, max_fields, type_budget, comments, layouts: &[Layout], iface_names| Gen { max_members, max_fields, type_budget, comments, variant_comments: comments == 1, layouts: layouts.to_vec(), iface_names };
+    let g = |max_members, max_fields, type_budget, comments, layouts: &[Layout], iface_names| Gen { max_members, max_fields, type_budget, comments, variant_comments: comments == 1, layouts: layouts.to_vec(), iface_names, rotate: false };
     let four = [Layout::Minimal, Layout::Spaced, Layout::NewlinesTabs, Layout::Crlf];
     let plan_pos: Vec<(&str, Gen)> = match tier {
         Tier::Quick => vec![
@@ -358,6 +364,12 @@ pub fn run_c13(tier: Tier) -> i32 {
             ("positives/names/<=1member,<=2fields,budget1/5-layouts", g(1, 2, 1, 0, &all, 6)),
         ],
     };
+    let mut plan_pos = plan_pos;
+    // every comment text (incl. texts that look like IDL) on every commentable position
+    plan_pos.push(("positives/comment-texts/<=1member,<=2fields,budget0", Gen { rotate: true, ..g(1, 2, 0, 1, &[Layout::Lines], 1) }));
+    if tier == Tier::Thorough {
+        plan_pos.push(("positives/comment-texts/<=2members,<=1field,budget0", Gen { rotate: true, ..g(2, 1, 0, 1, &[Layout::Lines], 1) }));
+    }
     for (name, g) in plan_pos {
         rep.add(explore(name, json!({"what": "positives", "gen": g.to_json()}), &Positives(g), &cfg));
     }
@@ -526,13 +538,13 @@ impl Harness for RoundTrip {
 
 pub fn run_c14(tier: Tier) -> i32 {
     let mut rep = Report::new("C14", tier.name());
-    rep.rule = "DFS over reference trees as in C13 (members x field lists x type trees within a budget, comments on every subset of the interface / member / direct field / parameter / variant positions); each is built through zlink's public owned constructors, rendered with Display, parsed, compared deeply (comments included) and rendered again; the same for descriptions the parser produced from the harness's own text; in the `exchange` phases the description additionally travels as a GetInterfaceDescription reply through a real Connection and is parsed by the generated org.varlink.service proxy. Distinct = distinct descriptions".into();
+    rep.rule = "DFS over reference trees as in C13 (members x field lists x type trees within a budget, comments on every subset of the interface / member / direct field / parameter / variant positions; in the comment-texts phases every one of seven comment texts - plain, empty, and texts that look like IDL: brackets before / after a colon, a colon or a closing bracket alone, keywords - on every position); each is built through zlink's public owned constructors, rendered with Display, parsed, compared deeply (comments included) and rendered again; the same for descriptions the parser produced from the harness's own text; in the `exchange` phases the description additionally travels as a GetInterfaceDescription reply through a real Connection and is parsed by the generated org.varlink.service proxy. Distinct = distinct descriptions".into();
     rep.assumptions = vec!["comments are plain single-line texts without leading whitespace; comment text is compared modulo surrounding whitespace".into(), "names are legal by the grammar".into()];
     for g in ["description-with-comments", "enum-with-commented-variant", "empty-member-list"] {
         rep.require_goal(g);
     }
     let cfg = Config { max_wall: std::time::Duration::from_secs(tier.pick(60, 1800)), ..Default::default() };
-    let g = |max_members, max_fields, type_budget, comments, iface_names| Gen { max_members, max_fields, type_budget, comments, variant_comments: comments == 1, layouts: vec![if comments == 1 { Layout::Lines } else { Layout::Spaced }], iface_names };
+    let g = |max_members, max_fields, type_budget, comments, iface_names| Gen { max_members, max_fields, type_budget, comments, variant_comments: comments == 1, layouts: vec![if comments == 1 { Layout::Lines } else { Layout::Spaced }], iface_names, rotate: false };
     let plan: Vec<(&str, RoundTrip)> = match tier {
         Tier::Quick => vec![
             ("plain/<=2members,<=1field,budget1", RoundTrip { gen: g(2, 1, 1, 0, 2), exchange: false }),
@@ -552,6 +564,13 @@ pub fn run_c14(tier: Tier) -> i32 {
             ("exchange/<=2members,<=1field,budget1+comments", RoundTrip { gen: g(2, 1, 1, 1, 2), exchange: true }),
         ],
     };
+    let mut plan = plan;
+    // every comment text (incl. texts that look like IDL) on every commentable position
+    plan.push(("comment-texts/<=1member,<=2fields,budget0", RoundTrip { gen: Gen { rotate: true, ..g(1, 2, 0, 1, 1) }, exchange: false }));
+    plan.push(("exchange/comment-texts/<=1member,<=1field,budget0", RoundTrip { gen: Gen { rotate: true, ..g(1, 1, 0, 1, 1) }, exchange: true }));
+    if tier == Tier::Thorough {
+        plan.push(("comment-texts/<=2members,<=1field,budget0", RoundTrip { gen: Gen { rotate: true, ..g(2, 1, 0, 1, 1) }, exchange: false }));
+    }
     for (name, h) in plan {
         rep.add(explore(name, json!({"what": "roundtrip", "exchange": h.exchange, "gen": h.gen.to_json()}), &h, &cfg));
     }
